@@ -36,4 +36,9 @@ theorem its_surface : itsSurface.map sig = itsExpected := by decide
 
 theorem its_storage_no_alias : noAlias itsStorage = true ∧ keysNodup itsStorage = true := by decide
 
+/-- the storage mappers of the contract are exactly the fields the model's state has (a mapper the model does not know
+    is state the theorems do not cover; the harness emulates its absence on contracts deployed by earlier code: `wipe`) -/
+theorem its_storage_keys : itsStorage.map (·.key) = ["account_roles", "approved_destination_minters", "chain_name", "chain_name_hash", "gas_service", "gateway", "proposed_roles", "token_manager", "token_manager_address", "transfer_with_data_lock", "trusted_address"] := by decide
+
+
 end Axelar.Surface
